@@ -113,10 +113,48 @@ def digest(*objs):
     return h.digest()
 
 
+def _same(c, refs, pristine):
+    """cheap exact test: container c still holds the pristine content (same objects, same array bytes)"""
+    if isinstance(c, dict):
+        if len(c) != len(refs):
+            return False
+        for k, v in refs.items():
+            if k not in c or c[k] is not v:
+                return False
+            if not _val_same(v, pristine[k]):
+                return False
+        return True
+    if isinstance(c, list):
+        return len(c) == len(refs) and all(a is b for a, b in zip(c, refs)) and all(
+            _val_same(a, b) for a, b in zip(c, pristine))
+    if isinstance(c, np.ndarray):
+        return _val_same(c, pristine)
+    return False
+
+
+def _val_same(v, p):
+    if isinstance(v, np.ndarray):
+        return v.shape == p.shape and v.dtype == p.dtype and (v.tobytes() == p.tobytes() if v.dtype != object else False)
+    if isinstance(v, (tuple, list)):
+        return len(v) == len(p) and all(_val_same(a, b) for a, b in zip(v, p))
+    if isinstance(v, (int, float, complex, str, bool, bytes)) or v is None:
+        return type(v) is type(p) and (v == p or (v != v and p != p))
+    return False     # unknown mutable object: rebuild to be safe
+
+
 class ModuleState(object):
     def __init__(self):
         self.items = scan()
         self.pristine = [self._copy(c) for _, c in self.items]
+        self.refs = [self._shallow(c) for _, c in self.items]
+
+    @staticmethod
+    def _shallow(c):
+        if isinstance(c, dict):
+            return dict(c)
+        if isinstance(c, list):
+            return list(c)
+        return None
 
     @staticmethod
     def _copy(c):
@@ -128,7 +166,16 @@ class ModuleState(object):
 
     def restore(self):
         import copy
-        for (label, c), p in zip(self.items, self.pristine):
+        for i, ((label, c), p) in enumerate(zip(self.items, self.pristine)):
+            if _same(c, self.refs[i], p):
+                continue
+            self._restore_one(c, p)
+            self.refs[i] = self._shallow(c)
+
+    @staticmethod
+    def _restore_one(c, p):
+        import copy
+        for _ in (0,):
             if isinstance(c, dict):
                 c.clear()
                 c.update(copy.deepcopy(p))
